@@ -1,3 +1,5 @@
+//go:build verif_e1
+
 package bf128
 
 // E1 harnesses for pkg/base/binaryfields/bf128: GF(2)[X]/(X^128+X^7+X^2+X+1), limbs
